@@ -577,6 +577,24 @@ def rule_M3(ctx, rid='M3'):
     ctx.ob(rid, 'Union.compute:cube-when-unit', ok, f.where(),
            'a unit-restricted union always owns a cube' if ok else
            'unit=True does not lead to a cube: the restriction would be silently dropped')
+    # ... and on no path is the restriction dropped although it was requested: a cube that is
+    # None (or anything but the unit cube) is assigned only where `unit` is known to be false,
+    # and every path to the return assigns the cube
+    for nn in cube_set:
+        v = nn.ast.value
+        if isinstance(v, ast.Call) and dotted(v.func) == 'UnitCube.compute':
+            continue
+        okn = cfg.has_fact(nn.id, 'unit', False)
+        ctx.ob(rid, 'Union.compute:no-cube-only-when-not-unit', okn, f.where(nn.ast),
+               '`%s` is reached only when unit is false' % unparse(nn.ast)[:40] if okn else
+               '`%s` can be reached with unit=True: the decision depends on more than the '
+               'request, so a union asked to stay inside the unit cube may propose and accept '
+               'points outside it' % unparse(nn.ast)[:40])
+    if cube_set:
+        every = cfg.must_pass(cfg.entry.id, cfg.exit.id, {n.id for n in cube_set})
+        ctx.ob(rid, 'Union.compute:cube-decided-on-every-path', every, f.where(),
+               'every path through compute() decides the cube' if every else
+               'a path through compute() leaves the cube undecided')
 
 
 # ---------------------------------------------------------------------------
